@@ -36,7 +36,7 @@ def mandatory_bins(tier):
     return [
         "empty_dict", "delete_key", "delete_value", "set_value", "merged_group", "multi_block", "block_size_115", "block_size_116", "block_size_117",
         "single_entry_116", "single_entry_117", "single_entry_118_oversize", "oversize_first", "oversize_middle", "oversize_last",
-        "unrepresentable_refused_or_encoded", "extra_blocks", "content_len_0", "content_len_254", "key_0", "key_ffff", "vid_0", "vid_fe", "all_fit",
+        "unrepresentable_refused_or_encoded", "extra_blocks", "content_len_0", "content_len_254", "key_0", "key_ffff", "vid_0", "vid_fe", "all_fit", "set_config_replaces_older_configuration_with_other_tags",
     ]
 
 
@@ -69,8 +69,14 @@ def judge(ns, ctx, conf, extras, via):
         ctx.bin("extra_blocks")
     expected = model.expected_ops(conf)
     try:
+        pre = False
         if via == "set_config":
             f = BF.Bf3File()
+            if len(conf) % 4 == 3:
+                # an older configuration component with other tags is already in the package
+                pre = True
+                f.components.append(BF.Bf3Component({0xC3: b"\x03", 0xC2: b"\x00", 0xC1: b"\x00", 0xC5: b"\x00", 0xC9: b"\x01\x01\x00\x9b"}, b"old configuration", None, False))
+                ctx.bin("set_config_replaces_older_configuration_with_other_tags")
             f.set_config(dict(conf), list(extras)) if extras else f.set_config(dict(conf))
             ctx.mon("set_config")
             comp = f.components[-1]
@@ -145,7 +151,11 @@ def judge(ns, ctx, conf, extras, via):
     # ---- component tags ------------------------------------------------------------
     if comp is not None:
         want = {0xC3: b"\x03", 0xC2: b"\x02", 0xC1: b"\x03", 0xC5: b"\x01"}
-        if dict(comp.description) != want:
+        have = dict(comp.description)
+        if pre:
+            # only the four tags the statement names are judged when an older component existed
+            have = {k: v for k, v in have.items() if k in want}
+        if have != want:
             ctx.violation("component_tags", {"got": dict(comp.description), "expected": want}, rp)
         elif not comp.encrypt_by_session_key:
             ctx.violation("component_not_marked_for_encryption", {}, rp)
